@@ -204,4 +204,17 @@ inline std::vector<uint8_t> gen_content(vf::Tape& t, size_t max_size, ContentInf
     return v;
 }
 
+// Make x start as the periodic continuation (period 1..15) of the dictionary's last bytes: after q < period free bytes the
+// encoder finds a match that begins in the dictionary tail and runs on, overlapping itself, inside the frame's own output.
+// Optionally cuts x shortly after that run so that the match ends near the end of the decoder's destination.
+inline bool continue_dict_tail(vf::Tape& t, const std::vector<uint8_t>& dict_content, std::vector<uint8_t>& x) {
+    if (dict_content.size() < 16) return false;
+    size_t p = (size_t)t.range(1, 15), q = (size_t)t.range(0, p - 1), L = (size_t)t.pick<size_t>({20, 45, 64, 100, 300, 5000});
+    L += (size_t)t.range(0, 40);
+    if (x.size() < q + L) x.resize(q + L, (uint8_t)'z');
+    for (size_t i = q; i < q + L; i++) x[i] = i >= p ? x[i - p] : dict_content[dict_content.size() - p + i];
+    if (t.chance(60)) x.resize(q + L + (size_t)t.range(0, 40));
+    return true;
+}
+
 }  // namespace gen
